@@ -331,6 +331,9 @@ func check(w *world) {
 				if op.plan.use == useCloseWrite {
 					o.Probe("close-write-before-read")
 				}
+				if op.plan.use == useDuplex {
+					o.Probe("first-read-races-first-write-" + path)
+				}
 			}
 			// handler runs carrying this open's nonce
 			switch {
